@@ -1,13 +1,133 @@
-import SamplyModel.Lemmas.BreakpadCreator
+import SamplyModel.Lemmas.BreakpadMap
 /-!
 # C10 — the Breakpad symbol index is independent of chunking and agrees with the .sym text
-(preliminary)
+
+Models: `SamplyModel/Model/LineBuffer.lean` (`LineBuffer`), `SamplyModel/Model/BreakpadIndex.lean`
+(line parsers, index creator, `.symindex` (de)serialization, FUNC block parser, `lookup_sync`, the symbol
+maps with and without a stored index). `BP.index pick chunks` is the outcome (`ok bytes | err | panic`)
+of feeding `chunks` in order to a fresh `BreakpadIndexCreator` and calling `finish`; `pick` is the oracle
+for the survivor of `sort_unstable + dedup` among entries with equal keys (all theorems hold for every
+`pick`).
+
+All theorems quantify over ALL byte strings / chunk lists — no bound on sizes; the only size hypotheses
+are the ones the Rust types impose (`u64` file offsets, `u32` index layout) and are stated explicitly.
+Only property theorems (names `C10_*`) and non-vacuity examples live in this file.
 -/
 open BP
 
 /-- Feeding the bytes of a `.sym` file to the incremental index builder in ANY partition into chunks
-(including empty chunks, 1-byte chunks, cuts between `\r` and `\n`) gives the same outcome — the same
-index bytes, the same error, the same panic — as feeding them as one chunk. -/
+(empty chunks, 1-byte chunks, cuts between `\r` and `\n`, …) gives the same outcome — the same index
+bytes, the same error, the same panic — as feeding them as one chunk. -/
 theorem C10_chunk_independent (pick : Pick) (chunks : List (List UInt8)) :
     index pick chunks = index pick [chunks.flatten] :=
   index_chunk_independent pick chunks
+
+/-- Two partitions of the same byte stream give byte-identical index data. -/
+theorem C10_chunk_independent_pair (pick : Pick) (c1 c2 : List (List UInt8))
+    (h : c1.flatten = c2.flatten) : index pick c1 = index pick c2 := by
+  rw [index_chunk_independent pick c1, index_chunk_independent pick c2, h]
+
+/-- The line buffer's `assert!` / offset subtraction and the FUNC-block length subtraction never fail:
+the creator can only panic inside `serialize_to_bytes`, and only when the index does not fit the `u32`
+layout of the `.symindex` format (≥ 4 GiB). -/
+theorem C10_no_panic (pick : Pick) (chunks : List (List UInt8)) (h : index pick chunks = .panic) :
+    ∃ ix, preIndex pick chunks = .ix ix ∧ ¬ totalLen ix < pow32 := by
+  obtain ⟨st, hc, _, he⟩ := preIndex_spec pick chunks.flatten
+  unfold index at h
+  rw [preIndex_chunk_independent] at h ⊢
+  rw [he] at h ⊢
+  cases hm : st.hasModule with
+  | false => simp [hm, Pre.toOutcome] at h
+  | true =>
+    simp only [hm, if_true, Pre.toOutcome] at h ⊢
+    refine ⟨_, rfl, ?_⟩
+    intro hlt
+    have hlen := (toIndex_sorted pick st _ hc).2.2.2
+    have : serializeSafe (st.toIndex pick) = true := (serializeSafe_iff _).2 ⟨hlt, hlen⟩
+    simp [this] at h
+
+/-- Round trip: parsing the serialization of an index gives back that index, and serializing the parse
+result reproduces the bytes. Hypotheses: the fields fit their serialized widths and the module-info block
+has a parseable MODULE line (`Index.ok`), and the whole index fits the `u32` layout (`serializeSafe`,
+i.e. `serialize_to_bytes` does not panic). -/
+theorem C10_roundtrip (ix : Index) (hok : ix.ok) (hs : serializeSafe ix = true) :
+    parseSymindex (serialize ix) = some ix ∧
+    ∀ ix', parseSymindex (serialize ix) = some ix' → serialize ix' = serialize ix := by
+  have h := parse_serialize ix hok hs
+  refine ⟨h, ?_⟩
+  intro ix' h'
+  rw [h] at h'
+  cases h'
+  rfl
+
+/-- Every index the creator can produce, from any text shorter than 2^64 bytes in any chunking, satisfies
+the hypotheses of the round trip: its bytes parse back (so `make_symbol_map`'s `unwrap` cannot panic),
+re-serializing the parsed index reproduces them byte for byte, the symbol addresses and the FILE /
+INLINE_ORIGIN indexes are strictly ascending (what the binary searches of the lookup rely on) and the two
+symbol arrays have the same length. -/
+theorem C10_creator_roundtrip (pick : Pick) (chunks : List (List UInt8)) (bytes : List UInt8)
+    (hlen : chunks.flatten.length < pow64) (h : index pick chunks = .ok bytes) :
+    ∃ ix, parseSymindex bytes = some ix ∧ serialize ix = bytes ∧
+      ix.addrs.Pairwise (· < ·) ∧ (ix.files.map (·.index)).Pairwise (· < ·) ∧
+      (ix.origins.map (·.index)).Pairwise (· < ·) ∧ ix.addrs.length = ix.entries.length := by
+  obtain ⟨st, hc, _, he⟩ := index_spec pick chunks
+  rw [he] at h
+  cases hm : st.hasModule with
+  | false => simp [hm] at h
+  | true =>
+    simp only [hm, if_true] at h
+    by_cases hs : serializeSafe (st.toIndex pick) = true
+    · simp only [hs, if_true, Outcome.ok.injEq] at h
+      subst h
+      have hok := toIndex_ok pick st _ hc hlen hm
+      exact ⟨_, parse_serialize _ hok hs, rfl, toIndex_sorted pick st _ hc⟩
+    · simp [hs] at h
+
+/-- A symbol map that is handed a stored index built from the same text — in any chunking, e.g. the
+chunks of the download — is the same map as the one that indexes the file itself (in 1 MiB reads): same
+parsed index, hence the same answer to every lookup. -/
+theorem C10_stored_eq_self_built (pick : Pick) (text : List UInt8) (chunks : List (List UInt8))
+    (bytes : List UInt8) (hflat : chunks.flatten = text) (hidx : index pick chunks = .ok bytes) :
+    mapStored pick text (some bytes) = mapSelf pick text :=
+  mapStored_eq_mapSelf pick text chunks bytes hflat hidx
+
+/-- Without a stored index, or with one that does not parse, the map falls back to indexing the file. -/
+theorem C10_stored_fallback (pick : Pick) (text : List UInt8) (stored : Option (List UInt8))
+    (h : stored.bind parseSymindex = none) : mapStored pick text stored = mapSelf pick text := by
+  unfold mapStored
+  rw [h]
+  unfold mapSelf
+  split <;> rfl
+
+/-- The self-indexing map is a function of the whole text (its 1 MiB reads are one particular chunking),
+and it never hits the `unwrap` of `make_symbol_map` for a text shorter than 2^64 bytes. -/
+theorem C10_self_map_no_unwrap_panic (pick : Pick) (text : List UInt8) (hlen : text.length < pow64)
+    (h : mapSelf pick text = .panic) : index pick [text] = .panic := by
+  rw [mapSelf_eq] at h
+  split at h
+  · cases h
+  · cases hi : index pick [text] with
+    | panic => rfl
+    | err => simp [hi] at h
+    | ok bytes =>
+      simp only [hi] at h
+      obtain ⟨ix, hp, _⟩ := C10_creator_roundtrip pick [text] bytes (by simpa using hlen) hi
+      simp [hp] at h
+
+/-- Before fix c4b9d51a an `INLINE_ORIGIN` record inside a FUNC block made the whole block unparseable
+(every lookup in that function returned nothing); the repaired parser skips it. -/
+theorem C10_legacy_counterexample_origin_in_func :
+    parseBodyLegacy (splitLines ([49, 48, 48, 48, 32, 50, 48, 32, 49, 32, 48, 10, 73, 78, 76, 73, 78, 69, 95, 79, 82, 73, 71, 73, 78, 32, 48, 32, 103, 10] : List UInt8)) = none ∧
+    (parseBody (splitLines ([49, 48, 48, 48, 32, 50, 48, 32, 49, 32, 48, 10, 73, 78, 76, 73, 78, 69, 95, 79, 82, 73, 71, 73, 78, 32, 48, 32, 103, 10] : List UInt8))).isSome = true := by
+  decide
+
+/-! ### Non-vacuity -/
+
+/-- `MODULE a b 0123456789ab c\nFUNC 1000 20 0 f\n1000 20 1 0\nINLINE_ORIGIN 0 g\n` -/
+def C10_exampleText : List UInt8 := [77, 79, 68, 85, 76, 69, 32, 97, 32, 98, 32, 48, 49, 50, 51, 52, 53, 54, 55, 56, 57, 97, 98, 32, 99, 10, 70, 85, 78, 67, 32, 49, 48, 48, 48, 32, 50, 48, 32, 48, 32, 102, 10, 49, 48, 48, 48, 32, 50, 48, 32, 49, 32, 48, 10, 73, 78, 76, 73, 78, 69, 95, 79, 82, 73, 71, 73, 78, 32, 48, 32, 103, 10]
+
+/-- the example text is indexed without error: one FUNC symbol, one INLINE_ORIGIN entry, 112 index bytes -/
+example : (match index Pick.first [C10_exampleText] with | .ok b => b.length | _ => 0) = 112 := by
+  unfold index
+  rw [preIndex_eq_spec]
+  decide
